@@ -320,6 +320,9 @@ func namedOf(t types.Type) *types.Named {
 
 func typeName(t types.Type) string {
 	s := types.TypeString(t, func(p *types.Package) string { return p.Name() })
+	if strings.Contains(s, "interface{}") {
+		s = strings.ReplaceAll(s, "interface{}", "any") // one spelling for the empty interface and its predeclared alias
+	}
 	if len(identSubst) > 0 {
 		s = applySubst(s, identSubst)
 	}
